@@ -37,6 +37,7 @@ fn compare(filter: &Filter, f: &AF, msgs: &[FMsg], built: &[DltMessage], rep: &m
 fn roundtrip(filter: &Filter, built: &[DltMessage], what: &str) -> Result<(), String> {
     let j = filter.to_json();
     let f2 = Filter::from_json(&j).map_err(|e| format!("{}: to_json output {} does not load: {}", what, j, e))?;
+    ensure!(f2.kind == filter.kind && f2.enabled == filter.enabled, "{}: kind/enabled flag lost in the JSON round trip {}", what, j);
     for m in built {
         ensure!(filter.matches(m) == f2.matches(m), "{}: filter serialised to {} and loaded again decides differently for message idx {} ({} vs {})", what, j, m.index, filter.matches(m), f2.matches(m));
     }
@@ -67,6 +68,7 @@ fn json_frontend(v: &(AF, Vec<FMsg>), rep: &mut Rep) -> Result<(), String> {
     let built: Vec<DltMessage> = msgs.iter().enumerate().map(|(i, m)| m.build(i as u32)).collect();
     let j = to_json(f);
     let filter = Filter::from_json(&j).map_err(|e| format!("from_json refused {}: {}", j, e))?;
+    ensure_eq!(filter.kind as u8, f.kind, "filter kind from JSON");
     compare(&filter, f, msgs, &built, rep, "JSON")?;
     roundtrip(&filter, &built, "JSON")
 }
